@@ -277,6 +277,20 @@ func init() {
 	intrinsics[vrt+"ModelPlaintext"] = func(ex *Exec, st *State, fr *Frame, c *ssa.Call, a []Value) Value {
 		return &SliceVal{off: c64(0), len: c64(0), cap: c64(0), elem: types.Typ[types.Uint8]}
 	}
+	intrinsics[vrt+"FrameBegin"] = func(ex *Exec, st *State, fr *Frame, c *ssa.Call, a []Value) Value {
+		ids := map[int]bool{}
+		ex.reach(st, a[0], ids)
+		st.frecs = append(st.frecs, &frameRec{ids: ids})
+		return c64(len(st.frecs) - 1)
+	}
+	intrinsics[vrt+"FrameUnchanged"] = func(ex *Exec, st *State, fr *Frame, c *ssa.Call, a []Value) Value {
+		i := ex.intArg(st, a[0], "frame token")
+		f := st.frecs[i]
+		if len(f.dirty) > 0 {
+			st.notes = append(st.notes, "written at "+strings.Join(f.dirty, ", "))
+		}
+		return mkBool(len(f.dirty) == 0)
+	}
 	intrinsics[vrt+"Native"] = func(ex *Exec, st *State, fr *Frame, c *ssa.Call, a []Value) Value {
 		return mkBool(false)
 	}
@@ -654,6 +668,13 @@ func init() {
 			}
 			return ex.newBytes(st, cells)
 		}
+		if ex.cfg.BytesFull && x.op == OpUF && x.name == "modexp" {
+			if mv, ok := x.args[2].ConstBig(); ok {
+				l := (mv.BitLen() + 7) / 8
+				st.addPC(mkCmp(OpUle, mkBigBV(bigW, new(big.Int).Lsh(big.NewInt(1), uint(8*(l-1)))), x))
+				return ex.newBytes(st, splitBytes(mkExtract(8*l-1, 0, x), l))
+			}
+		}
 		// fork over the minimal big-endian length
 		nb := bigW / 8
 		conds := make([]*Term, nb+1)
@@ -869,6 +890,61 @@ func (ex *Exec) eqBytes(st *State, a, b *SliceVal) *Term {
 		cs[i] = mkEq(x, y)
 	}
 	return mkAnd(cs...)
+}
+
+// reach collects the ids of all objects reachable from v.
+func (ex *Exec) reach(st *State, v Value, ids map[int]bool) {
+	visit := func(id int) {
+		if id == 0 || ids[id] {
+			return
+		}
+		ids[id] = true
+		o := st.heap[id]
+		if o == nil {
+			return
+		}
+		switch o.kind {
+		case objCell:
+			ex.reach(st, o.val, ids)
+		case objArr:
+			for _, e := range o.elems {
+				ex.reach(st, e, ids)
+			}
+		case objMap:
+			for _, e := range o.entries {
+				ex.reach(st, e.key, ids)
+				ex.reach(st, e.val, ids)
+			}
+		}
+	}
+	switch x := v.(type) {
+	case *Ptr:
+		visit(x.obj)
+	case *SliceVal:
+		visit(x.obj)
+	case *MapVal:
+		visit(x.obj)
+	case *IfaceVal:
+		ex.reach(st, x.val, ids)
+	case *ExtRef:
+		visit(x.obj)
+	case *StructVal:
+		for _, f := range x.fields {
+			ex.reach(st, f, ids)
+		}
+	case *ArrayVal:
+		for _, e := range x.elems {
+			ex.reach(st, e, ids)
+		}
+	case *TupleVal:
+		for _, e := range x.vals {
+			ex.reach(st, e, ids)
+		}
+	case *FuncVal:
+		for _, b := range x.bindings {
+			ex.reach(st, b, ids)
+		}
+	}
 }
 
 func (ex *Exec) boolSlice(st *State, v Value) []*Term {
